@@ -210,6 +210,9 @@ class Scenario:
             if r is not None:
                 self.env[r] = EMPTY
             return ("tuple", [])
+        # appending nothing changes nothing (`line.extend_from_slice(prefix)` with an empty prefix)
+        if last in ("extend_from_slice", "push_str", "append", "extend") and len(dv) > 1 and dv[1] == EMPTY:
+            return ("tuple", [])
         # everything else that is handed a &mut to a tracked local may change it
         known_pure = re.search(IDENT, callee) or last in ("eq", "ne", "len", "is_empty", "from_utf8", "strip_suffix", "strip_prefix", "map_err", "ok",
                                                             "branch", "from_residual", "poll", "new_unchecked", "get_context", "from_str_radix", "parse",
